@@ -117,7 +117,8 @@ qb_log_format_fini(void)
 void
 qb_log_format_set(int32_t target, const char *format)
 {
-	char modified_format[256];
+	/* qb_log_target_format_static() fills up to max_line_length bytes */
+	char modified_format[QB_LOG_ABSOLUTE_MAX_LEN];
 	struct qb_log_target *t = qb_log_target_get(target);
 
 	pthread_rwlock_wrlock(&_formatlock);
